@@ -70,7 +70,7 @@ def top_node(lit, variants=True):
     opt = st.tuples(st.sampled_from(PL.GLOBAL_OPTIONS), lit).map(lambda t: ["opt", t[0], t[1]])
 
     def blk(name):
-        var = st.one_of(st.none(), st.none(), lit, st.just('"default"')) if (variants and name in PL.VARIANT_BLOCKS) else st.none()
+        var = st.one_of(st.none(), st.none(), lit, st.just('"default"'), st.sampled_from(['"Default"', '"DEFAULT"', '"default "', '" default"', '"defaults"', '"\\x64efault"', '""', '"variant"', '"Variant"'])) if (variants and name in PL.VARIANT_BLOCKS) else st.none()
         return st.tuples(var, block_children(name, lit)).map(lambda t: ["block", name, t[0], t[1]])
 
     return st.one_of(opt, st.sampled_from(PL.TOP_BLOCKS).flatmap(blk), st.sampled_from(["http-get", "http-post", "stage", "process-inject", "http-stager"]).flatmap(blk))
